@@ -23,7 +23,7 @@ def NoBlocked (s : State) : Prop :=
 
 /-- every rollapp gauge refers to a registered rollapp -/
 def RollOK (s : State) : Prop :=
-  ∀ g ∈ s.gauges, ∀ r, g.kind = .rollapp r → ∃ ra, s.rollapps[r]? = some ra ∧ ra.exists_ = true
+  ∀ k ∈ s.gauges.map (·.kind), ∀ r, k = .rollapp r → ∃ ra, s.rollapps[r]? = some ra ∧ ra.exists_ = true
 
 theorem calcGauge_ok (s : State) (g : Gauge) (tr : Tracker) (hb : ∀ i, amt g.distributed i ≤ amt g.coins i)
     (hr : ∀ r, g.kind = .rollapp r → ∃ ra, s.rollapps[r]? = some ra ∧ ra.exists_ = true) :
@@ -313,11 +313,164 @@ theorem streamer_endBlock_ok (s : State) (hi : Inv s) (hsolv : Solv s) (hroll : 
     intro g hg r hk
     obtain ⟨g0, a1, _, a3, _⟩ := ci2 g hg
     obtain ⟨_, _, _, _, hmem⟩ := getG_some hi.ginv.ids a1
-    exact hroll g0 hmem r (by rw [← a3]; exact hk)
+    exact hroll g0.kind (List.mem_map_of_mem (f := (·.kind)) hmem) r (by rw [← a3]; exact hk)
   obtain ⟨s2, hinc⟩ := incDistribute_ok { s with ptrs := ps, bank := b } c.gauges false hi.ginv.ids hi.ginv.bounded ci1 ci2
     (by intro i; simp only; rw [ci3 i, hb1 i]; have := hi.ginv.solvent i; omega) hrollc hnb
   rw [hinc]
   simp only
   exact saveStreams_false_ok _ _
+
+
+/-! ### along every admissible history -/
+
+theorem setRollapp_get (l : List Rollapp) (r : Nat) (x : Rollapp) (r' : Nat) (ra : Rollapp) (h : l[r']? = some ra) (hra : ra.exists_ = true)
+    (hx : x.exists_ = true) : ∃ ra', (setRollapp l r x)[r']? = some ra' ∧ ra'.exists_ = true := by
+  obtain ⟨hlt, hget⟩ := List.getElem?_eq_some_iff.1 h
+  unfold setRollapp
+  by_cases hr : r < l.length
+  · rw [if_pos hr]
+    by_cases he : r = r'
+    · subst he; exact ⟨x, by simp [hr], hx⟩
+    · rw [List.getElem?_set_ne he]; exact ⟨ra, h, hra⟩
+  · rw [if_neg hr]
+    refine ⟨ra, ?_, hra⟩
+    rw [List.append_assoc, List.getElem?_append_left hlt]; exact h
+
+theorem RollOK_of_pay {s s' : State} (h : RollOK s) (hp : Pay s s') : RollOK s' := by
+  intro k hk r hkr
+  rw [hp.kinds] at hk
+  rw [hp.rollapps]
+  exact h k hk r hkr
+
+theorem RollOK_of_same {s s' : State} (h : RollOK s) (hp : Same s s') : RollOK s' := RollOK_of_pay h hp.pay
+
+theorem step_rollok (s : State) (op : Op) (hg : GInv s) (h : RollOK s) : RollOK (step s op).2 := by
+  unfold step
+  split
+  · exact h
+  · cases op with
+    | begin dt => exact RollOK_of_pay h (beginBlock_spec s dt hg).2
+    | end_ =>
+      simp only
+      cases he : streamerEndBlock s with
+      | ok s' => exact RollOK_of_pay h (strDistribute_spec _ _ _ _ _ _ hg he).2
+      | error e => exact RollOK_of_same (s' := { s with halted := true }) h ⟨rfl, rfl, rfl, rfl⟩
+    | setMaxIter n => exact RollOK_of_same (s' := { s with maxIter := n }) h ⟨rfl, rfl, rfl, rfl⟩
+    | fund a c => intro k hk r hkr; exact h k hk r hkr
+    | locks ls => intro k hk r hkr; exact h k hk r hkr
+    | rollapp r o l =>
+      intro k hk r' hkr
+      obtain ⟨ra, h1, h2⟩ := h k hk r' hkr
+      exact setRollapp_get s.rollapps r ⟨true, o, l⟩ r' ra h1 h2 rfl
+    | rollappGauge r =>
+      simp only
+      unfold createRollappGauge
+      cases hr : s.rollapps[r]? with
+      | none => exact h
+      | some ra =>
+        simp only
+        by_cases he : ra.exists_ = true
+        · simp only [he, Bool.not_true, Bool.false_eq_true, if_false]
+          intro k hk r' hkr
+          simp only [List.map_append, List.map_cons, List.map_nil, List.mem_append, List.mem_singleton] at hk
+          rcases hk with h1 | h1
+          · exact h k h1 r' hkr
+          · rw [h1] at hkr
+            have : r = r' := by injection hkr
+            rw [← this]; exact ⟨ra, hr, he⟩
+        · have he' : ra.exists_ = false := by simpa using he
+          simp only [he', Bool.not_false, if_true]; exact h
+    | createGauge o p d du hsup c st n =>
+      simp only
+      unfold createGauge
+      repeat' (first | split | dsimp only)
+      all_goals first | exact h | skip
+      intro k hk r' hkr
+      simp only [List.map_append, List.map_cons, List.map_nil, List.mem_append, List.mem_singleton] at hk
+      rcases hk with h1 | h1
+      · exact h k h1 r' hkr
+      · rw [h1] at hkr; injection hkr
+    | addToGauge o gid c =>
+      simp only
+      unfold addToGauge
+      split
+      · exact h
+      · cases hgg : getGauge s gid with
+        | none => exact h
+        | some g =>
+          simp only
+          split
+          · exact h
+          · cases hsend : s.bank.send o incAddr c with
+            | none => exact h
+            | some b =>
+              simp only
+              rw [getGauge_eq] at hgg
+              obtain ⟨_, hk, hget, hgid, _⟩ := getG_some hg.ids hgg
+              have hk' : g.id - 1 < s.gauges.length := by rw [hgid]; exact hk
+              have hget' : s.gauges[g.id - 1] = g := by
+                have : g.id - 1 = gid - 1 := by rw [hgid]
+                simp only [this]; exact hget
+              intro k hkk r' hkr
+              have hkinds : (setGauge { s with bank := b } { g with coins := Coins.add g.coins c }).gauges.map (·.kind) = s.gauges.map (·.kind) :=
+                kinds_set s.gauges (g.id - 1) { g with coins := Coins.add g.coins c } hk' (by rw [hget'])
+              rw [hkinds] at hkk
+              exact h k hkk r' hkr
+    | createStream c rs st e n => exact RollOK_of_same h (createStream_same s c rs st e n)
+    | terminateStream id => exact RollOK_of_same h (terminateStream_same s id)
+    | replaceDistr id rs => exact RollOK_of_same h (replaceDistr_same s id rs)
+
+theorem run_rollok : ∀ (ops : List Op) (s : State), GInv s → RollOK s → (∀ op ∈ ops, op.wf) → RollOK (run s ops) := by
+  intro ops
+  induction ops with
+  | nil => intro s _ h _; exact h
+  | cons op rest ih =>
+    intro s hg h hw
+    unfold run
+    exact ih _ (step_ginv s op hg (hw op List.mem_cons_self)) (step_rollok s op hg h) (fun o ho => hw o (List.mem_cons_of_mem _ ho))
+
+theorem init_rollok (now mi : Nat) : RollOK (init now mi) := by
+  intro k hk; simp [init] at hk
+
+/-- **after every admissible history** (no re-targeting, module accounts do not sign, fewer than 2^64-1
+    streams) in whose final state no lock owner or rollapp owner is a blocked address, the streamer
+    EndBlock succeeds: block processing does not fail in x/streamer -/
+theorem streamer_endBlock_ok_reachable (now mi : Nat) (ops : List Op)
+    (hw : ∀ op ∈ ops, op.wf ∧ op.wfS ∧ op.noRetarget)
+    (hlen : (run (init now mi) ops).streams.length < maxU64) (hnb : NoBlocked (run (init now mi) ops)) :
+    ∃ s', streamerEndBlock (run (init now mi) ops) = .ok s' := by
+  have hi := run_inv ops _ (init_inv now mi) hw hlen
+  have hsolv := run_solvent ops _ (init_ginv now mi) (init_sstruct now mi) (init_solv now mi)
+    (fun op ho => ⟨(hw op ho).1, (hw op ho).2.1⟩) (SB_noOver _ hi.sb)
+  have hroll := run_rollok ops _ (init_ginv now mi) (init_rollok now mi) (fun op ho => (hw op ho).1)
+  exact streamer_endBlock_ok _ hi hsolv hroll hnb
+
+/-- the `end` operation of the model therefore succeeds (does not halt the chain) under these conditions -/
+theorem end_does_not_halt (now mi : Nat) (ops : List Op)
+    (hw : ∀ op ∈ ops, op.wf ∧ op.wfS ∧ op.noRetarget)
+    (hlen : (run (init now mi) ops).streams.length < maxU64) (hnb : NoBlocked (run (init now mi) ops))
+    (hh : (run (init now mi) ops).halted = false) :
+    (step (run (init now mi) ops) .end_).1 = .ok := by
+  obtain ⟨s', h⟩ := streamer_endBlock_ok_reachable now mi ops hw hlen hnb
+  unfold step
+  rw [hh]
+  simp only [Bool.false_eq_true, if_false, h]
+
+/-- F4: the owner of a launched rollapp with a gauge is a blocked module account (address 102); a stream
+    feeds the gauge; the payout to the owner fails and the streamer EndBlock returns an error — the
+    block fails.  (`MsgTransferOwnership` accepted such an owner before fix F4.) -/
+def blockedOwnerHistory : List Op :=
+  [.begin 1, .end_, .rollapp 0 2 true, .rollappGauge 0, .fund streamerAddr [9000],
+   .createStream [9000] [⟨1, 1⟩] 101 1 3, .rollapp 0 102 true, .begin 3601]
+
+theorem endblock_blocked_owner_counterexample :
+    (match streamerEndBlock (run (init 100 500) blockedOwnerHistory) with | .error .err => true | _ => false) = true ∧
+    (step (run (init 100 500) blockedOwnerHistory) .end_).2.halted = true ∧
+    (∀ op ∈ blockedOwnerHistory, op.wf ∧ op.wfS ∧ op.noRetarget) ∧
+    ¬ NoBlocked (run (init 100 500) blockedOwnerHistory) := by
+  refine ⟨by decide, by decide, by decide, ?_⟩
+  intro h
+  have := h.2 ⟨true, 102, true⟩ (by decide)
+  revert this; decide
 
 end DymVerif.Incent
